@@ -39,7 +39,9 @@ fn main() {
     let seed: u64 = get("seed", "1").parse().unwrap();
     let shards: usize = get("shards", "1").parse().unwrap();
     let out = get("out", "/verif/work/out");
-    common::quiet_panics();
+    if std::env::var("ACVERIF_LOUD").is_err() {
+        common::quiet_panics();
+    }
     let mks: Vec<&'static str> = get("mks", "std,lf,ll")
         .split(',')
         .map(|x| match x {
